@@ -995,3 +995,91 @@ Definition judge (k : case) : N :=
       verdict (agree && solo_ok) (all_ok && forallb (fun p => obs_eqb (fst p) (snd p)) os)
   | CSkip => 0%N
   end.
+
+(* ---------- the third pool: ResponseBuffer's copy buffers (httpserver.respBufPool) ----------
+   ResponseBuffer.ReadFrom takes a []byte from respBufPool, hands it to io.CopyBuffer and puts it
+   back AS IT IS: unlike the gzip.Writer and templates' bytes.Buffer the copy buffer is never
+   reset, it carries the bytes of whatever was copied through it before (by a request that
+   panicked half way too).  What keeps them out of later responses is io.CopyBuffer's discipline:
+   src.Read(buf) stores nr <= len(buf) bytes at the START of buf and dst.Write receives buf[0:nr]
+   only.  [reads] = the chunks the successive Read calls of the source return. *)
+Definition cb_read (buf chunk : bytes) : bytes := chunk ++ skipn (length chunk) buf.
+Fixpoint copy_buffer (buf : bytes) (reads : list bytes) : bytes * bytes :=   (* (written to dst, buf afterwards) *)
+  match reads with
+  | [] => ([], buf)
+  | ch :: r => let buf1 := cb_read buf ch in
+               let o := copy_buffer buf1 r in
+               (firstn (length ch) buf1 ++ fst o, snd o)
+  end.
+(* the variant that hands the writer the whole buffer (buf instead of buf[:nr]): what the
+   discipline excludes; kept to show that the buffers ARE dirty (C12_copy_buffer_whole_refuted) *)
+Fixpoint copy_buffer_whole (buf : bytes) (reads : list bytes) : bytes * bytes :=
+  match reads with
+  | [] => ([], buf)
+  | ch :: r => let buf1 := cb_read buf ch in
+               let o := copy_buffer_whole buf1 r in
+               (buf1 ++ fst o, snd o)
+  end.
+
+(* a script whose copies say how their source is read *)
+Inductive cop := CO (o : op) | CCopy (reads : list bytes).
+Definition cop_plain (k : cop) : op := match k with CO o => o | CCopy reads => ORf (concat reads) end.
+Definition cop_fits (L : nat) (k : cop) : bool :=
+  match k with CO _ => true | CCopy reads => forallb (fun ch => Nat.leb (length ch) L) reads end.
+(* every copy: Get (any pooled buffer, or a new one [fresh]), io.CopyBuffer, Put *)
+Definition cp_get (fresh : bytes) (p : list bytes) : bytes * list bytes :=
+  match p with b :: r => (b, r) | [] => (fresh, []) end.
+Fixpoint cops_through (fresh : bytes) (cp : list bytes) (ks : list cop) : list op * list bytes :=
+  match ks with
+  | [] => ([], cp)
+  | CO o :: r => let t := cops_through fresh cp r in (o :: fst t, snd t)
+  | CCopy reads :: r =>
+      let g := cp_get fresh cp in
+      let w := copy_buffer (fst g) reads in
+      let t := cops_through fresh (snd w :: snd g) r in
+      (ORf (fst w) :: fst t, snd t)
+  end.
+
+Record creq := { k_path : bytes; k_ae : bool; k_blen : N; k_rd : option nat; k_ops : list cop; k_ret : Z; k_err : bool }.
+Definition creq_plain (q : creq) : req :=
+  {| q_path := k_path q; q_ae := k_ae q; q_blen := k_blen q; q_rd := k_rd q;
+     q_ops := map cop_plain (k_ops q); q_ret := k_ret q; q_err := k_err q |}.
+Definition creq_fits (L : nat) (q : creq) : bool := forallb (cop_fits L) (k_ops q).
+(* the server with its three pools *)
+Record srv3 := { s_two : srv; cp_pool : list bytes }.
+Definition serve_srv3 (errtext : Z -> bytes) (c : cfg) (fresh : bytes) (sv : srv3) (q : creq) : st * srv3 :=
+  let t := cops_through fresh (cp_pool sv) (k_ops q) in
+  let o := serve_srv errtext c (s_two sv)
+             {| q_path := k_path q; q_ae := k_ae q; q_blen := k_blen q; q_rd := k_rd q;
+                q_ops := fst t; q_ret := k_ret q; q_err := k_err q |} in
+  (fst o, {| s_two := snd o; cp_pool := snd t |}).
+Fixpoint run_hist3 (errtext : Z -> bytes) (c : cfg) (fresh : bytes) (sv : srv3) (qs : list creq) : list st :=
+  match qs with
+  | [] => []
+  | q :: r => let o := serve_srv3 errtext c fresh sv q in fst o :: run_hist3 errtext c fresh (snd o) r
+  end.
+Fixpoint srv3_after (errtext : Z -> bytes) (c : cfg) (fresh : bytes) (sv : srv3) (qs : list creq) : srv3 :=
+  match qs with
+  | [] => sv
+  | q :: r => srv3_after errtext c fresh (snd (serve_srv3 errtext c fresh sv q)) r
+  end.
+Definition pool_len_ok (L : nat) (p : list bytes) : bool := forallb (fun b => Nat.eqb (length b) L) p.
+
+(* ---------- log's ResponseRecorder next to net/http's response ----------
+   The recorder sits directly on the connection's writer and passes every call on; what the access
+   log prints as {status} is its own field: set by the first WriteHeader (1xx other than 101
+   ignored) unless a Write came before; Flush is passed on without being noted. *)
+Inductive ccall := KWh (s : Z) | KWr (g : seg) | KFl.
+Record recd := { r_wrote : bool; r_status : Z }.
+Definition recd0 : recd := {| r_wrote := false; r_status := 200 |}.
+Definition rec_step (r : recd) (k : ccall) : recd :=
+  match k with
+  | KWh s => if negb (r_wrote r) && ((s <? 100) || (199 <? s) || (s =? 101))
+             then {| r_wrote := true; r_status := s |} else r
+  | KWr _ => {| r_wrote := true; r_status := r_status r |}
+  | KFl => r
+  end.
+Definition conn_step (x : st) (k : ccall) : st :=
+  out_st (match k with KWh s => c_wh s x | KWr g => c_wr g x | KFl => c_fl x end).
+Definition ccall_ok (k : ccall) : bool := match k with KWh s => (200 <=? s) && (s <=? 999) | _ => true end.
+Definition client_status (x : st) : Z := match cm x with Some s => s | None => 200 end.
